@@ -762,9 +762,9 @@ fn language_parsers_table() -> (r: anyhow::Result<HashMap<OsString, LanguagePars
     ensures
         r matches Ok(m) ==> c16_table(m@), // [C16.table.post.registered_names]
 //@edit rule=ghost before=<<let bash_parser>>
+    broadcast use lemma_blocks_osstring_sig;
     proof {
         reveal_with_fuel(pairs_to_map, 64);
-        broadcast use axiom_blocks_osstring_of_injective;
         reveal_strlit("mod"); reveal_strlit("sum"); reveal_strlit("work");
         reveal_strlit("bak"); reveal_strlit("rs.bak"); reveal_strlit("x.rs.bak");
     }
